@@ -27,9 +27,11 @@
 (*   NESTING DEPTH: headers may nest (802.1Q in 802.1Q, MPLS label stacks,  *)
 (*        IP in GRE in IP, VXLAN in VXLAN, ICMP errors quoting ICMP errors, *)
 (*        extension header chains).  The property does not say how deep a   *)
-(*        parser must follow; it does say that it returns.  So from layer   *)
-(*        NestFloor+1 on every layer MAY be left raw, and the corpus gets a *)
-(*        depth dimension (DeepShapes x DeepSizes, up to 64 kB frames).     *)
+(*        parser must follow; it does say that it returns and records how   *)
+(*        far it got.  So from layer NestFloor+1 on every layer MAY be left *)
+(*        raw (a depth limit, or the interpreter's own), the layers above   *)
+(*        are judged as in any other frame, and the corpus gets a depth     *)
+(*        dimension (DeepShapes x DeepSizes, up to 64 kB frames).           *)
 EXTENDS PktGrammarLib, TLC, Json
 
 CONSTANTS PayFull,   \* payload lengths under stacks expanded at full level
@@ -89,10 +91,11 @@ EdgeCuts(f) ==
   {0, Total(f), DEnd(f)} \cup
   UNION { {Off(f, j) + d : d \in {0, 1}} \cup {Off(f, j) + NeedAt(f, j) + d : d \in {0, 1}} \cup
           {Off(f, j) + HlAt(f, j) + d : d \in {0, 1}} : j \in 1..NL(f) }
-\* deep frames: whole, one byte short, inside the last header, in the middle, just behind the floor, inside Ethernet
+\* deep frames: whole, one byte short, inside the last header, in the middle, just behind the floor,
+\* inside / just behind the Ethernet header
 DeepCuts(f) ==
   {c \in {Total(f), Total(f) - 1, HdrEnd(f), Off(f, NL(f)) + 1, Off(f, (NL(f) \div 2) + 1) + 1,
-          Off(f, Min(NL(f), NestFloor + 2)) + 1, 13} : c <= Total(f)}
+          Off(f, Min(NL(f), NestFloor + 2)) + 1, 13, 15, 19} : c <= Total(f)}
 IsDeep(f) == f.n > 0 \/ NL(f) > NestFloor \/ Total(f) > 400
 Cuts(f) == IF IsDeep(f) THEN DeepCuts(f)
            ELSE IF CutMode = "all" THEN 0..Total(f)
@@ -203,7 +206,7 @@ NoLoss ==
     /\ (NAcc > 0 /\ ~(AllAccepted /\ LeafF(fr))) => rest.start = Off(fr, NAcc) + HlAt(fr, NAcc)
     /\ (~(AllAccepted /\ LeafF(fr))) => rest.start + rest.len >= CutD(fr, cut)
 
-\* an untruncated well-formed frame is parsed all the way down (as far as NestFloor layers)
+\* an untruncated well-formed frame is parsed all the way down (at least as far as NestFloor layers)
 WholeFrameParses ==
   (pc \in {"rest", "print", "dump", "pack", "done"} /\ cut >= DEnd(fr) /\ fr.lastOrig = 0)
      => \A j \in 1..Min(NL(fr), NestFloor) : j <= Len(flags) /\ flags[j]
